@@ -138,14 +138,26 @@ func baseNextToken(l *Lexer) token.Token {
 		// Capture position BEFORE reading the string
 		startLine, startColumn := l.Line, l.Column
 		tok = l.NewTokenAt(token.STRING, l.readString('"'), startLine, startColumn)
+		if l.atEOF() {
+			// the closing quote is missing: not a string the parser may accept
+			tok.Type = token.ILLEGAL
+		}
 	case '\'':
 		// Capture position BEFORE reading the string
 		startLine, startColumn := l.Line, l.Column
 		tok = l.NewTokenAt(token.STRING, l.readString('\''), startLine, startColumn)
+		if l.atEOF() {
+			// the closing quote is missing: not a string the parser may accept
+			tok.Type = token.ILLEGAL
+		}
 	case '`':
 		// Capture position BEFORE reading the raw string
 		startLine, startColumn := l.Line, l.Column
 		tok = l.NewTokenAt(token.RAW_STRING, l.readRawString(), startLine, startColumn)
+		if l.atEOF() {
+			// the closing quote is missing: not a string the parser may accept
+			tok.Type = token.ILLEGAL
+		}
 	case 0:
 		if l.atEOF() {
 			// no ReadChar: end of input is reported at the same place however often it is requested
